@@ -85,6 +85,8 @@ def main(tier, replay):
         # done.state family: parallels whose regions (with nested parallels/compounds, active or not) finish in the order the history dictates
         ch, h = C.gen_done_chart(base + 800000 + i)
         cases.append(('d%d' % i, 'fam', ch, ('lua', 'null', 'promela')[i % 3], h))
+        ch, h = C.gen_hist_chart(base + 850000 + i)
+        cases.append(('h%d' % i, 'fam', ch, ('lua', 'null', 'promela')[i % 3], h))
     # enumerated family E
     fam = list(C.family_E(2, 2)) if tier == 'quick' else list(C.family_E(3, 2))
     hists = [[], ['e1'], ['e1', 'e1']] if tier != 'quick' else [['e1', 'e1']]
